@@ -142,6 +142,16 @@ def shared_class_state(trees, is_descriptor=None):
                 continue
             for nm, (st, val) in shared.items():
                 muts = []
+                # an attribute that __init__ binds on the instance, unconditionally, shadows the class-level object for that
+                # instance from then on: what is reached through `self` afterwards is the instance's own
+                own_line = None
+                for f_ in cnode.body:
+                    if isinstance(f_, ast.FunctionDef) and f_.name == "__init__" and f_.args.args:
+                        self_nm = f_.args.args[0].arg
+                        for st2 in f_.body:
+                            if isinstance(st2, ast.Assign) and any(isinstance(t2, ast.Attribute) and t2.attr == nm and isinstance(t2.value, ast.Name) and t2.value.id == self_nm for t2 in st2.targets):
+                                own_line = (f_, st2.lineno, self_nm)
+                                break
 
                 def is_ref(e, nm=nm):
                     return isinstance(e, ast.Attribute) and e.attr == nm and isinstance(e.value, (ast.Name, ast.Call, ast.Attribute))
@@ -156,6 +166,19 @@ def shared_class_state(trees, is_descriptor=None):
                                     muts.append((rel2, n, "%s[...] = ..." % nm))
                                 elif isinstance(n, ast.AugAssign) and is_ref(t_):
                                     muts.append((rel2, n, "%s op= ..." % nm))
+                if own_line is not None:
+                    f_, ln_, self_nm = own_line
+
+                    def through_self_after(n_):
+                        recv = None
+                        for sub in ast.walk(n_):
+                            if isinstance(sub, ast.Attribute) and sub.attr == nm and isinstance(sub.value, ast.Name):
+                                recv = sub.value.id
+                                break
+                        inside_init = f_.lineno <= n_.lineno <= (f_.end_lineno or n_.lineno)
+                        return recv == self_nm and not (inside_init and n_.lineno < ln_)
+
+                    muts = [m_ for m_ in muts if not (m_[0] == rel and cnode.lineno <= m_[1].lineno <= (cnode.end_lineno or m_[1].lineno) and through_self_after(m_[1]))]
                 if muts:
                     rel2, n, how = muts[0]
                     out.append(("violation", cnode.name, nm, "%s:%d" % (rel2, n.lineno),
